@@ -8,6 +8,7 @@ import (
 	"go/types"
 	"regexp"
 	"sort"
+	"strconv"
 	"strings"
 
 	"golang.org/x/tools/go/ssa"
@@ -200,6 +201,17 @@ func checkFunc(P *Program, fn *ssa.Function, c *FuncContract, sweep bool) (rep *
 				Detail: "contract names a loop that does not exist", Goal: p.False(), PC: p.True(), NFacts: 0, Func: ex.fnName(fn), Props: c.Props}
 			ex.obls = append(ex.obls, o)
 		}
+	}
+	// contract site assertions must name a call site that exists (in the function itself, statically, or in a callee
+	// executed in place): an assertion whose callee was renamed or whose ordinal no longer exists would otherwise
+	// silently assert nothing
+	for key := range c.Asserts {
+		if ex.assertHits[key] > 0 || assertSiteExists(fn, key) {
+			continue
+		}
+		o := &Obligation{Name: fmt.Sprintf("%s#contract.target[assert %s]", ex.fnName(fn), key), Kind: "contract.target",
+			Detail: "contract asserts at a call site that does not exist: " + key, Goal: p.False(), PC: p.True(), NFacts: 0, Func: ex.fnName(fn), Props: c.Props}
+		ex.obls = append(ex.obls, o)
 	}
 	ex.addFieldInputs(fn)
 	if len(fr.rets) == 0 {
@@ -838,4 +850,56 @@ func (ex *Exec) applySplits(c *FuncContract, rep *FuncReport) {
 			o.Parts = np
 		}
 	}
+}
+
+// assertSiteExists: does fn contain a call (or go statement) matching the key "call:<name>[:k]" / "go:<name>[:k]"?
+func assertSiteExists(fn *ssa.Function, key string) bool {
+	parts := strings.Split(key, ":")
+	if len(parts) < 2 {
+		return true
+	}
+	kind, name, want := parts[0], parts[1], -1
+	if len(parts) >= 3 {
+		if k, err := strconv.Atoi(parts[2]); err == nil {
+			want = k
+		}
+	}
+	n := 0
+	for _, b := range fn.Blocks {
+		for _, in := range b.Instrs {
+			var common *ssa.CallCommon
+			switch c := in.(type) {
+			case *ssa.Call:
+				if kind == "call" {
+					common = &c.Call
+				}
+			case *ssa.Go:
+				if kind == "go" {
+					common = &c.Call
+				}
+			case *ssa.Defer:
+				if kind == "call" {
+					common = &c.Call
+				}
+			}
+			if common == nil {
+				continue
+			}
+			cn := ""
+			if common.IsInvoke() {
+				cn = common.Method.Name()
+			} else if f := common.StaticCallee(); f != nil {
+				cn = f.Name()
+			} else if _, isB := common.Value.(*ssa.Builtin); !isB {
+				cn = "dyn"
+			}
+			if cn == name {
+				n++
+			}
+		}
+	}
+	if want < 0 {
+		return n > 0
+	}
+	return n > want
 }
